@@ -111,10 +111,11 @@ CONSTANTS MaxSess = %d
  IdReset = %s
  StoreReset = %s
  PrivReset = %s
+ OpenOnOpen = "%s"
 INVARIANTS TypeOK Clean OneLoop
 CHECK_DEADLOCK FALSE
 """
-REOPEN_CODE = dict(flush="open-after-wait", caps="TRUE", delim="always", idr="FALSE", store="FALSE", priv="TRUE")
+REOPEN_CODE = dict(flush="open-after-wait", caps="TRUE", delim="always", idr="FALSE", store="FALSE", priv="TRUE", oo="shutdown-first")
 REOPEN_ALTERNATIVES = {          # each must be rejected by the model; the history that replays the counterexample on the code is named in Reopen.tla
     "queue flushed before the wait for the old read loop": dict(flush="open-before-wait"),
     "queue flushed by Close before the read loop has gone": dict(flush="close-before-wait"),
@@ -124,6 +125,7 @@ REOPEN_ALTERNATIVES = {          # each must be rejected by the model; the histo
     "1.0 delimiter never restored": dict(delim="never"),
     "message-ids restart while unfetched replies stay filed": dict(idr="TRUE"),
     "cached privilege level kept": dict(priv="FALSE"),
+    "Open on a session that is still up goes straight on (no shutdown of that session first)": dict(oo="as-is"),
 }
 
 
@@ -131,7 +133,7 @@ def reopen_model(ctx, thorough):
     """Reopen.tla: what one driver object carries from one session into the next; the code's choices hold, every alternative is rejected."""
     def cfg(**kw):
         c = dict(REOPEN_CODE, **kw)
-        return REOPEN % (4 if thorough else 3, c["flush"], c["caps"], c["delim"], c["idr"], c["store"], c["priv"])
+        return REOPEN % (4 if thorough else 3, c["flush"], c["caps"], c["delim"], c["idr"], c["store"], c["priv"], c["oo"])
     r = ctx.tlc("Reopen", cfg="ro.cfg", files={"ro.cfg": cfg()}, workers=8, timeout=1200)
     if r["violated"]:
         ctx.violation("C07:model:Reopen:Clean", "Reopen.tla: with the resets the code makes an operation can observe something of an earlier session:\n" + r["stdout"][-2000:],
@@ -326,6 +328,13 @@ def scenarios(ctx, thorough):
             for rd in (300, 900):          # grace period 90 ms / 810 ms: far beyond any scheduling hiccup (40 us would give 1.6 ms)
                 for rep in range(4 if thorough else 3):
                     scns.append({"driver": drv, "state": st, "closes": 1 + rep % 2, "closebeh": "eof", "readdelay_us": rd, "before": "", "after": "", "poll": True})
+    # a larger read delay (3 ms): the time Close gives a read loop that is stuck in a blocking read before it closes the transport
+    # under it grows with the SQUARE of the read delay in the pinned code (9 s here, 100 s at 10 ms); "within a bounded time" is
+    # judged with the same 3 s as everywhere else
+    for drv in ("generic", "network", "netconf"):
+        for st in ("idle", "inflight"):
+            for cb in ("eof", "stay"):
+                scns.append({"driver": drv, "state": st, "closes": 1, "closebeh": cb, "readdelay_us": 3000, "before": "", "after": ""})
     # an Open that fails half way (read error in the middle of the hello / the login dialogue), then Close: nothing should be
     # left behind. The property starts "after a successful open", so what is observed here is a note, not a verdict (it showed the
     # reader goroutine of the NETCONF hello exchange being left behind, repaired with fix 795418f)
